@@ -62,7 +62,7 @@ def cases(draw, ml):
         rel = draw(st.sampled_from(['base', 'ext', 'ext', 'ext_variant', 'conflict']))
         t = base
         if rel != 'base':
-            t = gen.substitute_leaves(draw, base, sub, at_least_one=True)
+            t = gen.substitute_leaves(draw, base, sub, at_least_one=True, none_too=draw(st.booleans()))
         if rel == 'ext_variant':
             t = gen.dict_variant(draw, t)
         if rel == 'conflict':
